@@ -316,8 +316,15 @@ func (s *settings) SaveSettingsToFilesystem() error {
 		return fmt.Errorf("failed to create directory path: %w", err)
 	}
 
-	if err := os.WriteFile(filePath, data, 0644); err != nil {
+	// write a temporary file and move it over the settings file: a save that fails part-way
+	// (crash, full disk) must not leave a truncated settings.json behind — New() would then start without any pattern
+	tmpPath := filePath + ".tmp"
+	if err := os.WriteFile(tmpPath, data, 0644); err != nil {
+		_ = os.Remove(tmpPath)
 		return fmt.Errorf("failed to write to file system: %w", err)
+	}
+	if err := os.Rename(tmpPath, filePath); err != nil {
+		return fmt.Errorf("failed to replace the settings file: %w", err)
 	}
 
 	return nil
